@@ -347,6 +347,11 @@ def correspond(ctx, model):
         cg_case(ctx, model, rng)
         if len(ctx.violations) >= 5:
             return
+    # 2e. parameter edge cases (radius <= 0, delta <= 0, scale < 0): the code against the model incl. NaN positions, and the
+    #     minimiser property exactly where the Edge theorems assert it
+    edge_cases(ctx, model, rng)
+    if len(ctx.violations) >= 5:
+        return
     # 3. which constructions advertise a prox / are rejected (exhaustive over the small configuration space)
     guard_cases(ctx, model)
     reject_cases(ctx, model)
@@ -496,6 +501,106 @@ def attr_update_case(ctx, model, rng, fam):
         ctx.disagree(f"prox.{fam}.attr-update.new-signature", dict(_public(new), old_params=case["params"], attr=what),
                      pc._js(p_new_sig), pc._js(p_model), oracle=lambda c: orc(c, p_new_sig),
                      note=f"prox after assigning {what} on the same object (float32 input: signature not seen before)")
+
+
+def _nan_agree(a, b, rtol=1e-9):
+    a, b = np.asarray(a, dtype=np.float64), np.asarray(b, dtype=np.float64)
+    if a.shape != b.shape or not np.array_equal(np.isnan(a), np.isnan(b)):
+        return False
+    ok = ~np.isnan(a)
+    return bool(np.all(np.abs(a[ok] - b[ok]) <= rtol * (1.0 + np.maximum(np.abs(a[ok]), np.abs(b[ok]))) * max(a.size, 1)))
+
+
+def edge_cases(ctx, model, rng):
+    """constructor parameters outside the documented range: `L2BallIndicator(radius <= 0)`, `HuberNorm(delta <= 0)`,
+    `SquaredL2Loss(scale < 0)` with a diagonal operator.  Model and code must agree entry by entry INCLUDING where NaN appears
+    (`0/0` at `v = 0`); where C02_l2ball_zero_radius / C02_huber_nonsep_negative_delta / C02_sqL2loss_diag_anyscale assert a
+    minimiser the objective is compared with competitors on the implementation; C02_l2ball_negative_radius: norm = -radius."""
+    reps = ctx.n(3, 12)
+    for _ in range(reps):
+        for fam, pname, vals in (("l2ball", "radius", [0.0, -1.0, -0.5]), ("hubernonsep", "delta", [0.0, -0.5, -1.5]),
+                                 ("hubersep", "delta", [0.0, -0.5, -1.5])):
+            for val in vals:
+                for vzero in (False, True):
+                    shape = list(pg.pick(rng, [(1,), (3,), (2, 2)]))
+                    n = int(np.prod(shape))
+                    v = np.zeros(n) if vzero else pg.dy(rng, n, zeros=0.0)
+                    if not vzero and not np.any(v):
+                        v[0] = 1.0
+                    if fam == "hubersep" and not vzero and rng.random() < 0.5:
+                        v[int(rng.integers(0, n))] = 0.0  # a single zero entry: NaN in that entry only
+                    case = {"fam": fam, "params": {pname: val}, "shape": shape, "blocks": None, "cplx": False, "dtype": "float64",
+                            "lam": pg.pick(rng, pg.LAMS), "v": v.tolist(), "stream": "edge"}
+                    with warnings.catch_warnings():
+                        warnings.simplefilter("ignore")
+                        impl = pc.Impl(case)
+                        p_impl = np.asarray(impl.prox_flat(v), dtype=np.float64)
+                        p_model, _ = pc.model_eval(model, dict(case))
+                    ctx.count(f"edge:{fam}:{pname}={val}:{'v=0' if vzero else 'v!=0'}:{'nan' if np.any(np.isnan(p_impl)) else 'finite'}")
+                    ctx.case(_desc(case), "edge-" + _key(case))
+                    if not _nan_agree(p_impl, p_model):
+                        ctx.disagree(f"prox.{fam}.edge", _public(case), [None if np.isnan(t) else float(t) for t in p_impl],
+                                     [None if np.isnan(t) else float(t) for t in np.asarray(p_model, dtype=np.float64)],
+                                     note=f"{pname}={val} (outside the documented range): code and model differ")
+                        continue
+                    if vzero or np.any(np.isnan(p_impl)):
+                        continue
+                    lam = float(case["lam"])
+                    if fam == "l2ball" and val < 0 and abs(np.linalg.norm(p_impl) + val) > 1e-9:
+                        raise common.Infra("C02_l2ball_negative_radius contradicted numerically")
+                    if fam == "l2ball" and val == 0.0 and np.any(p_impl != 0):
+                        ctx.violation({"kind": "failing-input", "case": _public(case), "failing": {"reason": "radius 0: prox is not 0", "p": p_impl.tolist()}},
+                                      True, "prox.l2ball: radius 0")
+                    if fam == "hubernonsep" and val < 0:
+                        # C02_huber_nonsep_negative_delta: global minimiser (non-convex: objective against competitors)
+                        with warnings.catch_warnings():
+                            warnings.simplefilter("ignore")
+                            Fp = impl.objective(p_impl, v)
+                            for k in range(24):
+                                z = p_impl + [1e-2, 1e-1, 1.0, 3.0][k % 4] * rng.standard_normal(n) if k % 6 else np.zeros(n)
+                                Fz = impl.objective(z, v)
+                                if Fz < Fp - 1e-9 * (1 + abs(Fp)):
+                                    ctx.violation({"kind": "failing-input", "case": _public(case),
+                                                   "failing": {"reason": "HuberNorm(delta<0, non-separable): a competitor has a lower objective",
+                                                               "p": p_impl.tolist(), "objective(p)": Fp, "better_x": z.tolist(), "objective(x)": Fz}},
+                                                  True, "prox.hubernonsep: delta < 0")
+                                    break
+        # SquaredL2Loss, diagonal A, negative scale
+        n = int(rng.integers(1, 5))
+        a, w = pg.dy(rng, n, 2.0, zeros=0.2), np.abs(pg.dy(rng, n, 3.0, zeros=0.2))
+        sc = -pg.pick(rng, [0.125, 0.5, 1.0, 2.0])
+        lam = pg.pick(rng, pg.LAMS)
+        case = {"fam": "sql2loss", "params": {"scale": sc, "A": "diagonal", "rescale": []}, "shape": [n], "blocks": None, "cplx": False,
+                "dtype": "float64", "lam": lam, "v": pg.dy(rng, n).tolist(), "y": pg.dy(rng, n).tolist(), "w": w.tolist(), "a": a.tolist(),
+                "stream": "edge"}
+        den = 2 * sc * lam * a * w * a + 1
+        if np.any(den == 0):
+            continue
+        v = pc.flat_value(case, "v")
+        with warnings.catch_warnings():
+            warnings.simplefilter("ignore")
+            impl = pc.Impl(case)
+            p_impl = np.asarray(impl.prox_flat(v), dtype=np.float64)
+            p_model, _ = pc.model_eval(model, dict(case))
+        ctx.count("edge:sql2loss:scale<0:" + ("all-denominators-positive" if np.all(den > 0) else "a-negative-denominator"))
+        ctx.case(_desc(case), "edge-" + _key(case))
+        if not _nan_agree(p_impl, p_model):
+            ctx.disagree("prox.sql2loss.edge", _public(case), p_impl.tolist(), np.asarray(p_model).tolist(), note="scale < 0: code and model differ")
+            continue
+        if np.all(den > 0):
+            # C02_sqL2loss_diag_anyscale: still the global minimiser
+            with warnings.catch_warnings():
+                warnings.simplefilter("ignore")
+                Fp = impl.objective(p_impl, v)
+                for k in range(16):
+                    z = p_impl + [1e-2, 1e-1, 1.0, 5.0][k % 4] * rng.standard_normal(n)
+                    Fz = impl.objective(z, v)
+                    if Fz < Fp - 1e-9 * (1 + abs(Fp)):
+                        ctx.violation({"kind": "failing-input", "case": _public(case),
+                                       "failing": {"reason": "SquaredL2Loss(scale<0, positive denominators): a competitor has a lower objective",
+                                                   "p": p_impl.tolist(), "objective(p)": Fp, "better_x": z.tolist(), "objective(x)": Fz}},
+                                      True, "prox.sql2loss: negative scale")
+                        break
 
 
 def firm_pair(ctx, rng, case):
